@@ -13,7 +13,7 @@ touchc
 /venv/bin/python _demo.py > /tmp/_demo_out_$P.txt 2>&1; mut=$?
 rm -f /tmp/_seed_junit_$P.xml
 for try in 1 2 3 4; do   # the suite occasionally segfaults inside unittest.mock in this sandbox (also on the unmodified tree): retry
-  /venv/bin/python -m pytest -v -p no:cacheprovider --timeout=900 --continue-on-collection-errors --junitxml=/tmp/_seed_junit_$P.xml >/tmp/_seed_pytest_$P.log 2>&1
+  /venv/bin/python -m pytest -ra -q -p no:cacheprovider --timeout=900 --continue-on-collection-errors --junitxml=/tmp/_seed_junit_$P.xml >/tmp/_seed_pytest_$P.log 2>&1
   [ -f /tmp/_seed_junit_$P.xml ] && break
 done
 P=$P /venv/bin/python - <<'PY'
